@@ -2,7 +2,7 @@
    fixed frame around escape(raw), and unescaping it gives raw back; (b) the code-span post-processing is the
    documented rule.  Fence/indent extraction in containers needs the parser model: decided by the oracle. *)
 From Coq Require Import ZArith List Bool Lia.
-From Verif Require Import PyStr Util UtilGen UtilProofs Tmpl HtmlRender TmplCheck TmplGen C18 CodeSpan NormalizeProofs CodeGen.
+From Verif Require Import PyStr Util UtilGen UtilProofs Tmpl HtmlRender TmplCheck TmplGen C18 CodeSpan NormalizeProofs CodeGen Rx RxSub Inline Block.
 Import ListNotations.
 Open Scope Z_scope.
 
@@ -69,5 +69,24 @@ Example C11_codespan_examples :
   codespan_text T [32; 96; 96; 32; 32] = [96; 96; 32] /\ codespan_text T [32; 97] = [32; 97].
 Proof. vm_compute. repeat split; reflexivity. Qed.
 
+(* ---- extraction, on the block parser model (Model/Block.v): the raw text of a fenced code block whose opening fence
+   is not indented is a contiguous stretch of the source, untouched; with an indented fence it is that stretch with at
+   most that many leading spaces removed per line (Pattern.sub with ^ {0,n}, which keeps every non-space character:
+   C03_sub_sites_keep_words) ---- *)
+Theorem C11_fenced_raw_is_a_source_slice : forall C m st rf st2 rf2 e,
+  handle_fenced C m st rf = (st2, rf2, Some e) ->
+  exists a b marker info,
+    s_tokens st2 = s_tokens st ++
+      [BCode (let body := slice (s_src st) a b in
+              if negb (Nat.eqb (List.length (Block.group_n (s_src st) m 1)) 0) && negb (Nat.eqb (List.length body) 0)
+              then re_sub (b_uni C) (indent_trim (List.length (Block.group_n (s_src st) m 1))) (rep_of (RConst [])) body else body)
+             true marker info].
+Proof.
+  intros C m st rf st2 rf2 e H. unfold handle_fenced in H. cbv zeta in H.
+  destruct (_ && memc 96 _); [discriminate|].
+  destruct (rsearch C _ (s_src st) _) as [m2|]; inversion H; subst; cbn; do 4 eexists; reflexivity.
+Qed.
+
 Print Assumptions C11_code_piece_unescapes_to_raw.
 Print Assumptions C11_codespan_rule.
+Print Assumptions C11_fenced_raw_is_a_source_slice.
